@@ -9,7 +9,7 @@ UW = ['remove_call_out.0:6', 'find_call_out.0:6', 'remove_all_call_out.0:6', 'st
 
 def J(name, mode, desc, inputs, tier, **kw):
     d = dict(name=name, srcs=['@harness/C10/callout.c'], stubs=BASE, defs=[mode + '=1'] + kw.pop('defs', []), unwind=34, unwindset=UW,
-             targets=kw.pop('targets'), timeout=280, mem_gb=14, desc=desc, inputs=inputs, assumptions=A)
+             targets=kw.pop('targets'), timeout=400, mem_gb=5, desc=desc, inputs=inputs, assumptions=A)
     d.update(kw)
     return d
 
@@ -32,12 +32,12 @@ def jobs1(tier, sl):
           inp + ', error mask', tier, defs=dm, targets=['call_out']),
     ] + [
         J('L2R_reentrant.act0.d%s' % str(dl).replace('-', 'm'), 'MODE_L2R', 'call_out() whose first callback really calls new_call_out(delay=%d): the new entry does not fire in the same sweep and is due exactly at current_time+max(delay,1)' % dl,
-          inp, tier, defs=dm + ['ACT=0', 'L2R_NX=2', 'DELAY=(%d)' % dl], mem_gb=14, targets=['call_out', 'new_call_out'],
+          inp, tier, defs=dm + ['ACT=0', 'L2R_NX=2', 'DELAY=(%d)' % dl], mem_gb=5, targets=['call_out', 'new_call_out'],
           opt_witness=['reentrant_delay_one_revolution', 'reentrant_insert', 'reentrant_remove', 'reentrant_find', 'two_fired', 'error_branch'])
         for dl in ((-1, 1, 31, 32, 33, 64) if tier == 'quick' else (-1, 0, 1, 2, 30, 31, 32, 33, 34, 63, 64, 65, 96))
     ] + [
         J('L2R_reentrant.act%d' % a, 'MODE_L2R', 'call_out() whose first callback really calls remove_call_out / remove_call_out_by_handle / find_call_out*: removed never fires; reported time left is exact; others unaffected',
-          inp + ', action, target entry', tier, defs=dm + ['ACT=%d' % a, 'L2R_NX=2'], mem_gb=14, targets=['call_out'],
+          inp + ', action, target entry', tier, defs=dm + ['ACT=%d' % a, 'L2R_NX=2'], mem_gb=5, targets=['call_out'],
           opt_witness=['reentrant_delay_one_revolution', 'reentrant_insert', 'reentrant_remove', 'reentrant_find', 'two_fired', 'error_branch'])
         for a in range(1, 5)
     ] + [
